@@ -8,18 +8,20 @@ import numpy as np
 
 NAME_POOLS = {
     "ascii": ["a", "b", "c", "d", "e", "f", "g", "h"],
-    "tricky": ["", "a", "A", "ab", "b ", "é", "日本", "ß", "a,b", "10", "9", "x" * 12, "Ω", "ctl", "control"],
+    "tricky": ["", "a", "A", "ab", "b ", "é", "日本", "ß", "a,b", "10", "9", "x" * 12, "Ω", "ctl", "control",
+               # spellings that differ only in unicode normal form / compatibility form / invisible characters are DIFFERENT names
+               "e\u0301", "\u212b", "\u00c5", "a\u200b", " a", "\uff41"],
     "digits": ["1", "2", "10", "11", "9", "100", "01"],
     "wide": [f"t{i}" for i in range(300)],
 }
 SAMPLE_POOLS = {
     "ascii": ["s0", "s1", "s2", "s3", "s4", "s5", "s6"],
-    "tricky": ["", "s", "S", "é", "日本", "cell line", "10", "9", "ctl", "zz" * 6],
+    "tricky": ["", "s", "S", "é", "日本", "cell line", "10", "9", "ctl", "zz" * 6, "e\u0301", "\u212b", "\u00c5", "s\u200b"],
     "wide": [f"s{i}" for i in range(300)],
 }
 PLATE_POOLS = {
     "ascii": ["p0", "p1", "p2", "p3", "p4", "p5", "p6", "p7", "p8", "p9", "p10", "p11"],
-    "tricky": ["", "p", "P", "é", "日本", "plate 1", "10", "9", "2", "ctl", "unobserved_plate", "q" * 9],
+    "tricky": ["", "p", "P", "é", "日本", "plate 1", "10", "9", "2", "ctl", "unobserved_plate", "q" * 9, "e\u0301", "\u212b", "\u00c5", "p\u200b"],
     "wide": [f"p{i}" for i in range(300)],
 }
 DOSES = [1.0, 2.0, 0.5, 10.0, 1e-3, 5e-324, 2.2250738585072014e-308, 1e300, 3.0000000000000004]
@@ -125,11 +127,33 @@ def make_screen(spec, **extra):
     # (np.vstack(cols).T, DataFrame.to_numpy()); which layout is used derives from the content
     lay = spec.get("layout")
     if lay is None:
-        lay = ["C", "C", "C", "F-both", "F-names", "F-doses"][kernel_h(spec) % 6]
+        lay = ["C", "C", "C", "F-both", "F-names", "F-doses", "wideU", "strided", "strided-wideU", "C"][kernel_h(spec) % 10]
     if lay in ("F-both", "F-names"):
         a["treatment_names"] = np.asfortranarray(a["treatment_names"])
     if lay in ("F-both", "F-doses"):
         a["treatment_doses"] = np.asfortranarray(a["treatment_doses"])
+    if "wideU" in lay:
+        # fixed-width unicode arrays wider than their longest element (what a DataFrame column or a slice of a
+        # larger table gives): the width of the dtype is not part of a name
+        for k, extra_w in (("treatment_names", 33), ("sample_names", 7), ("plate_names", 1)):
+            w_ = max(1, a[k].dtype.itemsize // 4) + extra_w
+            a[k] = a[k].astype(f"<U{w_}")
+    if "strided" in lay:
+        # every table is a strided view of a larger one (rows of interest interleaved with junk rows)
+        for k in ("treatment_names", "treatment_doses", "sample_names", "plate_names", "observations", "observation_mask"):
+            v = a[k]
+            if k == "treatment_names":  # junk as wide as the real names, so that the width is unchanged
+                junk = np.full(v.shape, "~" * max(1, v.dtype.itemsize // 4), dtype=v.dtype)
+            elif v.dtype.kind == "U":
+                junk = np.full(v.shape, "~", dtype=v.dtype)
+            elif v.dtype == bool:
+                junk = ~v
+            else:
+                junk = np.full(v.shape, 7.5)
+            big = np.empty((2 * v.shape[0],) + v.shape[1:], dtype=v.dtype)
+            big[0::2] = v
+            big[1::2] = junk
+            a[k] = big[0::2]
     a.update(extra)
     return Screen(**a)
 
